@@ -203,8 +203,8 @@ func (x *wlStructCtx) check(pw *PwView, p *spg.Password, constSepChar string, se
 func init() {
 	register(&CheckDef{
 		ID: "C05", Level: "exploration",
-		Technique: "deterministic simulation: structure predicate as an invariant on every simulated wordlist generation; boundary-biased choice walks (shipped and synthetic lists, forced first/last indices, Length 1, empty and functional separators)",
-		Rule:      "case = one WLRecipe.Generate call checked against the structure predicate; distinct by hash of (recipe, returned token sequence); non-trivial = Length >= 2 or a capitalising scheme",
+		Technique:   "deterministic simulation: structure predicate as an invariant on every simulated wordlist generation; boundary-biased choice walks (shipped and synthetic lists, forced first/last indices, Length 1, empty and functional separators)",
+		Rule:        "case = one WLRecipe.Generate call checked against the structure predicate; distinct by hash of (recipe, returned token sequence); non-trivial = Length >= 2 or a capitalising scheme",
 		Assumptions: []string{"title-casing is strings.Title", "a separator function's values for the gaps are the values it returned during the call (recorded by a wrapper), in any order"},
 		Episodes:    map[string]int{"quick": 12000, "thorough": 2000000},
 		TwiceEvery:  9,
